@@ -369,6 +369,64 @@ pub fn run() {{
     return text, exp
 
 
+def render_nolock(t, v, mode, idx):
+    """C14, no_std build without a lock: is the configured return producible? Construction is wrapped, so that a
+    refusal at construction time ("No Mutex API") is told apart from a failure at call time."""
+    text, exp = render(t, v, mode, idx)
+    old = text[text.index("pub fn run() {"):]
+    rt = ty_rust(t)
+    clause = old[old.index("Unimock::new(") + len("Unimock::new("):old.index(").no_verify_in_drop();")]
+    new = f"""pub fn run() {{
+    let built = std::panic::catch_unwind(|| Unimock::new({clause}).no_verify_in_drop());
+    let u = match built {{
+        Ok(u) => u,
+        Err(p) => {{
+            ev({idx}, "build_panic", &[panic_text(p)], &[]);
+            return;
+        }}
+    }};
+    ev({idx}, "built", &[], &[]);
+    let r = std::panic::catch_unwind(std::panic::AssertUnwindSafe(|| {{
+        let v = u.m();
+        format!("{{:?}}", v)
+    }}));
+    match r {{
+        Ok(dbg) => ev({idx}, "value", &[dbg], &[]),
+        Err(p) => ev({idx}, "panic", &[panic_text(p)], &[]),
+    }}
+}}
+"""
+    exp = dict(exp)
+    exp["nolock"] = True
+    return text.replace(old, new), exp
+
+
+def check_nolock(exp, events):
+    """Single-use paths only. A value with an owned part needs the Mutex API to be handed out once: construction
+    must fail. A value made of borrowed leaves only must be accepted and returned by the first call."""
+    ks = [e["k"] for e in events]
+    if "driver_panic" in ks:
+        return f"driver panicked: {events[ks.index('driver_panic')]['p']}"
+    if exp["owned_leaves"] > 0:
+        if "build_panic" not in ks:
+            return (f"a return with an owned part ({exp['type']} = {exp['value']}) cannot be produced without a Mutex API, "
+                    f"but Unimock::new accepted it (events {ks}: " +
+                    "; ".join(str(e['p'])[:160] for e in events if e['k'] in ('value', 'panic')) + ")")
+        msg = events[ks.index("build_panic")]["p"][0]
+        if "Mutex" not in msg:
+            return f"construction failed with an unexpected message: {msg[:200]!r}"
+        return None
+    if "build_panic" in ks:
+        return (f"a return made of borrowed leaves only ({exp['type']} = {exp['value']}) was refused at construction: "
+                f"{events[ks.index('build_panic')]['p'][0][:200]!r}")
+    vals = [e for e in events if e["k"] == "value"]
+    if not vals:
+        return f"the first call did not return the configured value: {[e['p'] for e in events if e['k'] == 'panic']}"
+    if vals[0]["p"][0] != exp["value"]:
+        return f"first call returned {vals[0]['p'][0]}, configured {exp['value']}"
+    return None
+
+
 def render_named(t, v, mode, idx):
     """The same case with `fn m<'s>(&'s self) -> ..&'s T..`: borrows tied to self only through a named lifetime."""
     text, exp = render(t, v, mode, idx)
